@@ -82,9 +82,9 @@ UNIT = dict(
             ("wrapcalls", "R7-new", r"AtomicUsize::new", "AtomicUsize::new(Ghost(config), {args}, Tracked(()))", 1),
         ]),
         "AimdController::clone@Clone": dict(file="aimd", rules=[
-            ("sub", "R7-new", r"AtomicUsize::new\(self\.limit\.load\(Ordering::Relaxed\)\)", "AtomicUsize::new(Ghost(self.config), vx_cur, Tracked(()))", 1),
-            ("inject", None, "start", "let vx_cur = self.limit.load(Ordering::Relaxed);"),
-            ("R7", [NOOP]),
+            # the fresh atomic starts at whatever expression the code reads the current limit with (a Relaxed load or the limit() accessor)
+            ("wrapcalls", "R7-new", r"AtomicUsize::new", "AtomicUsize::new(Ghost(self.config), {args}, Tracked(()))", 1),
+            ("R7", NOOP),
         ]),
         "AimdController::limit": dict(file="aimd", rules=[("R7", [NOOP])]),
         "AimdController::record_success": dict(file="aimd", rules=[("R7", LIMIT_ANY)]),
